@@ -11,7 +11,7 @@ import specs.rfc9535 as spec
 from jsonpath.match import JSONPathMatch
 
 # names chosen to stress quoting, escaping, look-alikes of indices and reserved words
-NAMES = ["a", "b", "", "1", "-1", "a b", "é", "😀", "'", '"', "\\", "a\\", "\n", "and", "true", "~", "#", "$", "0x1", "☺"]
+NAMES = ["a", "b", "", "1", "-1", "a b", "é", "😀", "'", '"', "\\", "a\\", "\n", "and", "true", "~", "#", "$", "0x1", "☺", "~1", "/", "a/b", "m~n", "~01"]
 SAFE_NAMES = ["a", "b", "c1", "_x", "é"]  # valid as dot shorthand
 
 DOCS = [
@@ -30,6 +30,7 @@ DOCS = [
     1.5,
     [0, False, "", None, [], {}, 1, "a"],
     {"and": 1, "true": 2, "~": 3, "#": 4, "$": 5, "0x1": 6, "☺": 7, "_x": [1, [2, [3]]]},
+    {"~1": 1, "/": 2, "a/b": {"m~n": 3, "~01": [4]}, "~0": 5, "~": 6},
     {"a": {"a": {"a": {"b": 1}}}, "b": {"a": {"b": 2}}},
     [[[7]]],
     {"x": 2, "a": [{"b": [1, 2]}, {"b": [3]}]},
